@@ -1,7 +1,7 @@
 (* props/C19.v — byte order changes only the bytes inside scalars; padding is always zero. *)
 From Coq Require Import ZArith List Bool Lia.
-From Prophy Require Import Bytes Schema Layout Wire Src PyStatics PyEncode
-  Arith SpecAlign Views SpecLen WireFacts PyEncodeFacts.
+From Prophy Require Import Bytes Schema Layout Wire Src PyStatics PyEncode PcModel CppFull
+  Arith SpecAlign Views SpecLen WireFacts PyEncodeFacts PcFacts CppSizeFacts CppEncFacts.
 Import ListNotations.
 Local Open Scope Z_scope.
 
@@ -35,6 +35,24 @@ Proof.
   - rewrite <- (render_mirror LE). symmetry. apply (render_same_length LE).
 Qed.
 Print Assumptions C19_python.
+
+(* about the C++ full codec's encoders (model CppFull.cpp_encode, tied to the compiled code by checks/C03.py and
+   checks/C19.py): the two byte orders are related in exactly the same way; `native` is the host order by
+   construction of the generated code (checked on the compiled code only) *)
+Theorem C19_cpp :
+  forall fs v, legal (TStruct fs) = true -> wt (TStruct fs) v = true ->
+    exists l, cpp_encode LE (TStruct fs) v = render LE l /\
+              cpp_encode BE (TStruct fs) v = mirror LE l /\
+              len (render LE l) = len (mirror LE l).
+Proof.
+  intros fs v Hl Hw. exists (layout (TStruct fs) v 0).
+  assert (H0 : 0 mod align (TStruct fs) = 0) by (apply Z.mod_0_l; pose proof (align_ok (TStruct fs)) as Ha; apply okal_pos in Ha; lia).
+  destruct (cpp_lay_eq (TStruct fs) v 0 Hl Hw H0) as [H _]. unfold cpp_encode. repeat split.
+  - apply H.
+  - rewrite H. rewrite <- (render_mirror LE). reflexivity.
+  - rewrite <- (render_mirror LE). symmetry. apply (render_same_length LE).
+Qed.
+Print Assumptions C19_cpp.
 
 Example C19_example :
   wire LE (TStruct [(FPlain, TScalar U8); (FPlain, TScalar U16)]) (VStruct [VInt 1; VInt 2]) = [1; 0; 2; 0] /\
